@@ -37,6 +37,7 @@ package server
 //@   ensures [C08 gate.nobrowser] (r.Method == "POST" && headerGet(ref(r.Header), "Content-Type") == "application/json" && headerGet(ref(r.Header), "Sec-X-Tailscale-No-Browsers") != "setec") ==>
 //@        (respStatus == 403 && respBody == "access denied\n" && fnCalls == old(fnCalls) && whoisCalls == old(whoisCalls))
 //@   ensures [C08 gate.reaches-store-only-if] fnCalls != old(fnCalls) ==> (hdrOK(r) && whoisCalls == old(whoisCalls) + 1 && lastWhoErr == nil && fnCalls == old(fnCalls) + 1)
+//@   ensures [C06,C08 gate.identified-caller-with-a-wellformed-request-reaches-the-store] (defined(call_getIdentity_1) && call_getIdentity_1 == nil) ==> (defined(call_Decode) && (call_Decode == nil ==> fnCalls == old(fnCalls) + 1))
 //@   ensures [C08 gate.nostore-nonsuccess] fnCalls == old(fnCalls) ==> (respStatus >= 400 && respStatus < 600 && auditLog == old(auditLog) && disk == old(disk))
 //@   ensures [C08 status.403] (fnCalls != old(fnCalls) && errIs(lastFnErr, db.ErrAccessDenied)) ==> (respStatus == 403 && respBody == "access denied\n")
 //@   ensures [C08 status.404] (fnCalls != old(fnCalls) && !errIs(lastFnErr, db.ErrAccessDenied) && errIs(lastFnErr, db.ErrNotFound)) ==> (respStatus == 404 && respBody == "not found\n")
